@@ -441,7 +441,7 @@ def unit_split(sess, ctx):
             eng.prove("C09:split:user-validator-long-name-wins-over-val",
                       Or(And(vals["validator"][0], val_arg == vals["validator"][1]),
                          And(Not(vals["validator"][0]), vals["val"][0], val_arg == vals["val"][1]))
-                      if isinstance(val_arg, Ref) else False, props=("C09",))
+                      if isinstance(val_arg, Ref) else False, props=("C09", "C05", "C07"))
         # ---- window counts and mode
         okc = len(ta) == 4 and all(is_int(x) for x in ta[1:4]) and set(tkw) == {"mode"}
         eng.prove("C06:split:tokenizer-argument-shape", okc, props=("C06",))
